@@ -53,6 +53,12 @@ theorem C18_every_form_reports :
     (Gen.reportsCall && Gen.reportsCallWithContext && Gen.reportsGo && Gen.reportsRoundTrip &&
      Gen.reportsPing && Gen.reportsNewStream) = true := by decide
 
+/-- R's events `park` and `close` are single steps because, in the source read on this run, wait()
+    tests `closed` and registers the waiter inside one critical section and the whole of Close runs
+    under the same lock: a caller either registers before Close drains the table or sees `closed`. -/
+theorem C18_registration_and_close_are_serialised :
+    (Gen.waitRegistersUnderLock && Gen.closeOneCriticalSection && Gen.checkOneCriticalSection) = true := by decide
+
 /-! Non-vacuity: two callers park, a target comes up, both are released; a third parks and Close releases it. -/
 example : ((R.run (R.init .rr false)
     [.update ["a"], .park 1, .park 2, .setUp "a" true, .checkDone "a" ["a"], .park 3, .close, .park 4]).map
